@@ -116,6 +116,36 @@ func TestC03(t *testing.T) {
 	}
 }
 
+// TestC03Reuse: the schedules of known finding C03-port-reuse (a delayed
+// response reaches a later socket of the client because the ephemeral port is
+// reused). Must run where the ephemeral port range is a single port.
+func TestC03Reuse(t *testing.T) {
+	scheds := vio.ReadCases[[]move](t)
+	out := vio.Create(t)
+	defer out.Close()
+	rng := vio.Rand()
+	for bi, sc := range scheds {
+		for ki, kind := range []string{"ip", "scion"} {
+			n, err := NewNetFor(kind)
+			if err != nil {
+				t.Fatal(err)
+			}
+			n.Timeout = 120 * time.Millisecond
+			b := 2*bi + ki
+			out.Emit(rec{Ev: "reset", Beh: b, Tr: kind})
+			runSchedule(t, n, sc, b, rng, out)
+			out.Emit(rec{Ev: "end", Beh: b})
+			if n.Calling() {
+				select {
+				case <-n.Done:
+				case <-time.After(n.Timeout + 200*time.Millisecond):
+				}
+			}
+			n.Close()
+		}
+	}
+}
+
 func pause(rng *rand.Rand) { time.Sleep(time.Duration(300+rng.Intn(1500)) * time.Microsecond) }
 
 func runSchedule(t *testing.T, n *Net, sc []move, bi int, rng *rand.Rand, out *vio.Out) int {
